@@ -1,4 +1,6 @@
+pub mod c25;
 pub mod c26;
 pub mod c29;
+pub mod c31;
 pub mod c32;
 pub mod c33;
